@@ -175,8 +175,37 @@ func VH_C16_MintImport() {
 	if err != nil {
 		return
 	}
-	sid, ierr := ImportClaimSession(ic, minted.ClaimID(), ClaimSessionOptions{PeerAddr: peer, Tag: tag, ExtraValidCommands: extra, Duration: opts.Lifetime})
+	iopts := ClaimSessionOptions{PeerAddr: peer, Tag: tag, ExtraValidCommands: extra, Duration: opts.Lifetime}
+	// the importer's cache is not necessarily empty: it may already hold a session
+	// under this id from an import of the same public part with another secret (a
+	// stale or forged claim), or from an earlier import of this very claim
+	secret2 := "0dd5ec2e70dd5ec2e70dd5ec2e70dd5ec2e70dd5ec2e70dd5ec2e70dd5ec2e70"
+	forged := strings.TrimSuffix(minted.ClaimID(), secret) + secret2
+	prior := vChoice("prior_import", 4) // 0 none, 1 other secret first, 2 same claim first, 3 other secret afterwards
+	switch prior {
+	case 1:
+		_, _ = ImportClaimSession(ic, forged, iopts)
+	case 2:
+		_, _ = ImportClaimSession(ic, minted.ClaimID(), iopts)
+	}
+	sid, ierr := ImportClaimSession(ic, minted.ClaimID(), iopts)
 	vAssert(ierr == nil, "import-accepts-minted-claim")
+	if prior == 3 && ierr == nil {
+		// someone who holds a different secret imports into the same cache: whatever
+		// that leaves under the id is keyed from *that* secret, not the minter's
+		fsid, ferr := ImportClaimSession(ic, forged, iopts)
+		if ferr == nil {
+			fe, fok := ic.Lookup(fsid)
+			vAssert(fok && fe.KeyInfo() != nil, "both-sides-keyed")
+			if fok && fe.KeyInfo() != nil && keys[secret2] != nil {
+				vAssertBytesEqual(fe.KeyInfo().Data, keys[secret2], "an-import-leaves-the-key-derived-from-the-imported-secret")
+				vCover("other-secret-imported-afterwards")
+			} else {
+				vAssert(keys[secret2] != nil, "an-import-leaves-the-key-derived-from-the-imported-secret")
+			}
+		}
+		return
+	}
 	if ierr != nil {
 		return
 	}
